@@ -11,7 +11,9 @@ from .cfg import CFG
 from .loader import dotted, is_self_attr, parent, src
 
 TOTAL_CALLS = {"len", "isinstance", "str", "repr", "type", "max", "min", "bool", "list", "dict", "set", "tuple", "any", "all", "sorted", "callable", "id",
-               "hash", "round", "abs", "enumerate", "zip", "range", "ord", "sum", "getattr", "hasattr", "frozenset", "reversed", "iter", "print_const"}
+               "hash", "round", "abs", "enumerate", "zip", "range", "ord", "sum", "getattr", "hasattr", "frozenset", "reversed", "iter", "print_const",
+               # unbound str slots applied to a str (sub)class instance: the base implementation, total
+               "str.__str__", "str.__len__", "str.lower", "str.upper", "str.strip", "str.__getitem__", "str.__contains__", "str.__eq__", "str.__hash__"}
 TOTAL_METHODS = {"lower", "upper", "strip", "lstrip", "rstrip", "startswith", "endswith", "replace", "split", "join", "keys", "values", "items", "get", "append",
                  "extend", "add", "time", "now", "utcnow", "isoformat", "format", "copy", "casefold", "isdigit", "find", "count", "title", "capitalize",
                  "partition", "setdefault", "update", "hexdigest", "digest", "search", "match", "fullmatch", "findall", "finditer", "group", "groups", "clear",
